@@ -2,7 +2,8 @@
 """C18 case generator and three-way comparison (code vs extracted model vs extracted spec).
 
 usage: gen_type_cases.py <seed> <count> [--run] [--typedump PATH] [--driver PATH] [--keep DIR]
-                         [--max-report N] [--deviations PCT] [--mutants PCT]
+                         [--max-report N] [--deviations PCT] [--mutants PCT] [--extras none|quick|thorough]
+                         [--script-dump FILE]
 
 Without --run: prints one case per line on stdout
     <hex source text of T> TAB <tree> TAB <separator style>
@@ -24,7 +25,24 @@ With --run: runs
         per class together with the number where code != shown (must be 0 now); R = the residual combination
         excluded from wf_ty (element name that isDataTypeName knows before an unknown plain type name):
         the python classifier says R  =>  wf_ty must be false (cross-check).
-  Exit status 1 on a failure of (0)-(4).
+    (5) SCRIPT pass: every case that parses alone in both positions is put into ONE script
+        `SELECT CAST(x AS T_0); SELECT x::T_0; SELECT CAST(x AS T_1); ...` which `typedump -script` parses with a single
+        parser.Parse call; its per-statement results must equal the per-case results line by line (state carried from
+        one type / statement to the next, e.g. a counter that is not restored, only shows inside one Parse call).
+        A difference is reported with the script position and the type text; --script-dump FILE stores the types of the
+        script up to and including the first differing one (hex, one per line) for the replay record.
+  Exit status 1 on a failure of (0)-(5).
+
+--extras: systematic classes appended after the <count> base cases (case index >= count; default quick):
+    bytes  : string arguments whose VALUE is not valid UTF-8 (lone continuation bytes, truncated sequences, 0xFE/0xFF,
+             overlong forms, surrogates, beyond U+10FFFF, Latin-1 text), spelled with backslash-xNN escapes, in every string
+             position (Enum/Enum8/Enum16 values, DateTime / DateTime64 time zones, Enum without values).  Model and spec
+             are over byte strings (list N), so these are ordinary three-way cases.
+    strlen : string arguments of every length: <prefix of p filler bytes> <special> <tail of q filler bytes> for the
+             specials (doubled quote, backslash-quote, doubled backslash, backslash-n, backslash-xE9) and 2/3/4-byte characters; quick: p in 0..70 and around 128/256/4096 with
+             q in a small set, and q in 0..70 with p in a small set; thorough: all p, q in 0..70 too; plus plain
+             strings of every length with ASCII and multi-byte filler.
+    wide   : one Tuple / named Tuple / Variant / Enum16 with > 1500 arguments, and deeply nested types.
 
 --deviations PCT: percentage of cases allowed to contain a construct of a former deviation class F1..F4 or R
   (default 25).
@@ -100,6 +118,18 @@ STR_PLAIN = ["UTC", "Europe/Amsterdam", "Asia/Istanbul", "a", "b", "hello", "hel
 STR_SPECIAL = ["it's", "'", "''", "a\\b", "\\", "\\\\", "tab\there", "\t", "line\nbreak", "\n", "\r\n", "nul\0x",
                "\0", "\b", "\f", "bell\bform\ffeed", "'\\'", "\\'", "it's a \\ mix\tof\nall\0", "Упя'чка",
                "日\\本", "\\n", "\\t"]
+# string VALUES that are not valid UTF-8 (the lexer stores the byte given by a \xNN escape; every printer must copy bytes)
+STR_BYTES = [b"caf\xe9", b"M\xfcnchen", b"Europe/Z\xfcrich", b"\xe9", b"\xe9t\xe9", b"na\xefve \xa3 5",     # Latin-1 text
+             b"\x80", b"\xbf", b"a\x80b", b"\x80\x80\x80", b"x\xa0",                                         # lone continuation bytes
+             b"\xc3", b"caf\xc3", b"\xe6\x97", b"\xe6\x97x", b"\xf0\x9f\x98", b"\xf0\x9f", b"\xf0", b"\xc3(",  # truncated sequences
+             b"\xff", b"\xfe", b"\xfe\xff", b"\xff\xff\xff\xff", b"a\xffb",                                  # bytes that never occur in UTF-8
+             b"\xc0\xaf", b"\xc0\x80", b"\xc1\xbf", b"\xe0\x80\xaf", b"\xe0\x9f\xbf", b"\xf0\x80\x80\xaf",       # overlong forms
+             b"\xed\xa0\x80", b"\xed\xbf\xbf", b"\xed\xa0\xbd\xed\xb8\x80",                                  # surrogates (CESU-8)
+             b"\xf4\x90\x80\x80", b"\xf8\x88\x80\x80\x80", b"\xfc\x84\x80\x80\x80\x80",                       # beyond U+10FFFF / 5- and 6-byte forms
+             b"caf\xe9's", b"\xe9\\\xe8", b"'\xff'", b"\xe9\n\xe8\t", b"\xc3\xa9\xe9\xc3\xa9", b"\xe6\x97\xa5\xe6\x97", b"\x00\xff\x00"]  # mixed with quote / backslash / controls / valid UTF-8
+
+# classes excluded because they hit a defect of /repo that is reported and still open (name -> reason); empty = nothing excluded
+KNOWN_OPEN = {}
 
 
 def upper(s):
@@ -135,6 +165,11 @@ class Gen:
 
     def string(self, enum):
         r = self.r
+        k = r.below(16)
+        if k == 0 or k == 1:
+            return r.choice(STR_BYTES)                     # not valid UTF-8
+        if k == 2 or k == 3:
+            return random_long_string(r)                   # any length, specials at any position (also right at the end)
         if self.dev and r.chance(1, 3):
             s = r.choice(STR_SPECIAL)
             if enum and not r.chance(1, 2):
@@ -280,6 +315,41 @@ class Gen:
         return r.choice(LEAVES)
 
 
+LENS_POW = [126, 127, 128, 129, 130, 254, 255, 256, 257, 258, 4094, 4095, 4096, 4097, 4098]
+LENS = list(range(0, 71)) + LENS_POW
+FILL = b"abcdefghijklmnopqrstuvwxyz0123456789ABCDEFGHIJKLMNOPQRSTUVWXYZ_-+/:. "
+ATOMS_PLAIN = [bytes([c]) for c in FILL] + ["é".encode(), "я".encode(), "日".encode(), "😀".encode()]
+ATOMS_SPECIAL = [b"'", b"'", b"\\", b"\n", b"\t", b"\0", b"\xe9", b"\xff", b"\x80", "é".encode(), "日".encode(), "😀".encode()]
+
+
+def fill(n, off=0):
+    """n filler bytes (no byte that any escaping touches); position-dependent, so a cut or a shift is visible"""
+    reps = (n + off) // len(FILL) + 2
+    return (FILL * reps)[off:off + n]
+
+
+def random_long_string(r):
+    k = r.below(8)
+    if k < 5:
+        n = r.below(71)
+    elif k < 7:
+        n = r.choice(LENS_POW[:10])
+    else:
+        n = r.choice(LENS_POW)
+    out = bytearray()
+    dense = r.chance(1, 4)
+    while len(out) < n:
+        if r.chance(1, 3 if dense else 12):
+            out += r.choice(ATOMS_SPECIAL)
+        else:
+            out += r.choice(ATOMS_PLAIN)
+    if r.chance(1, 2):
+        # a special right at the end, or a few bytes before it
+        tail = fill(r.below(4), r.below(40))
+        out += r.choice(ATOMS_SPECIAL) + tail
+    return bytes(out)
+
+
 # ---------------------------------------------------------------------------------------------
 # code_ok, as TypeSpec defines it (cross-checked with the driver's flag) and the deviation classes
 
@@ -317,13 +387,36 @@ def hx(b):
     return b.hex() if b else "-"
 
 
+def utf8_len(b, i):
+    """length of the valid UTF-8 sequence (in Go's and Python's strict sense) starting at b[i], 0 when there is none"""
+    for n in (2, 3, 4):
+        try:
+            if len(b[i:i + n].decode("utf-8")) == 1 and i + n <= len(b):
+                return n
+        except UnicodeDecodeError:
+            pass
+    return 0
+
+
 def render_string(r, b, style):
-    """a SQL string literal whose lexer value is b (b is valid UTF-8 plus the C0 specials)"""
+    """a SQL string literal (valid UTF-8 source text) whose lexer value is the BYTE string b: bytes that are not part of a
+    valid UTF-8 sequence are spelled \\xNN (the source text itself must be valid UTF-8: the lexer reads runes)"""
     out = bytearray(b"'")
     fancy = style != "canonical"
-    for c in b:
+    i = 0
+    while i < len(b):
+        c = b[i]
+        i += 1
+        if c >= 0x80:
+            n = utf8_len(b, i - 1)
+            if n and not r.chance(1, 16):
+                out += b[i - 1:i - 1 + n]
+                i += n - 1
+            else:
+                out += (b"\\x%02X" if r.chance(1, 2) else b"\\x%02x") % c     # also valid sequences, byte by byte, now and then
+            continue
         if c == 0x27:
-            out += b"''" if (fancy and r.chance(1, 2)) else b"\\'"
+            out += b"''" if r.chance(1, 2) else b"\\'"
         elif c == 0x5C:
             out += b"\\\\"
         elif c == 0x0A:
@@ -338,6 +431,8 @@ def render_string(r, b, style):
             out += b"\\b"
         elif c == 0x0C:
             out += b"\\f"
+        elif c >= 0x20 and c != 0x7F and r.chance(1, 64):
+            out += b"\\x%02x" % c                                               # \x41 is A
         else:
             out.append(c)
     out += b"'"
@@ -368,9 +463,9 @@ def tokens_of(r, t, style, out):
             out.append(('m', b"-"))
             out.append(('w', str(a[1]).encode()))
         elif a[0] == 's':
-            out.append(('p', render_string(r, a[1], style)))
+            out.append(('p', a[2] if len(a) > 2 else render_string(r, a[1], style)))      # a[2]: fixed source spelling
         elif a[0] == 'e':
-            out.append(('p', render_string(r, a[1], style)))
+            out.append(('p', a[4] if len(a) > 4 else render_string(r, a[1], style)))      # a[4]: fixed source spelling
             out.append(('p', b"="))
             if a[2]:
                 out.append(('m', b"-"))
@@ -534,6 +629,167 @@ def make_case(seed, i, dev_pct, mut_pct=0):
     return t, style, render(r, t, style), g.pairs
 
 
+# ---------------------------------------------------------------------------------------------
+# systematic extra classes (case index >= count): bytes, strlen, wide
+
+def holders(j, arg_s, arg_e):
+    """the string positions of the property's constructors; arg_s / arg_e build the 's' / 'e' argument"""
+    hs = [
+        lambda: ('A', "DateTime", [arg_s()]),
+        lambda: ('A', "DateTime64", [('u', 3), arg_s()]),
+        lambda: ('A', "Enum8", [arg_e(False, 1)]),
+        lambda: ('A', "Enum16", [arg_e(True, 5)]),
+        lambda: ('A', "Enum", [arg_e(False, 0)]),
+        lambda: ('A', "Enum", [arg_s()]),
+        lambda: ('A', "Enum8", [('e', b"a", False, 1), arg_e(False, 2)]),
+        lambda: ('A', "Enum16", [arg_s(), ('s', b"b")]),
+        lambda: ('A', "Array", [('t', ('A', "Nullable", [('t', ('A', "DateTime", [arg_s()]))]))]),
+        lambda: ('A', "Tuple", [('n', "a", ('A', "DateTime64", [('u', 9), arg_s()])), ('n', "b", ('N', "String"))]),
+        lambda: ('A', "Map", [('t', ('A', "LowCardinality", [('t', ('A', "Enum8", [arg_e(True, 128)]))])), ('t', ('N', "UInt8"))]),
+        lambda: ('A', "Variant", [('t', ('A', "Enum", [arg_e(False, 7), ('e', b"z", False, 8)])), ('t', ('N', "String"))]),
+    ]
+    return hs[j % len(hs)]()
+
+
+NHOLDERS = 12
+
+# (name, source spelling, value)
+STRLEN_SPECIALS = [("''", b"''", b"'"), ("\\'", b"\\'", b"'"), ("\\\\", b"\\\\", b"\\"), ("\\n", b"\\n", b"\n"),
+                   ("\\xE9", b"\\xE9", b"\xe9"), ("2-byte", "é".encode(), "é".encode()),
+                   ("3-byte", "日".encode(), "日".encode()), ("4-byte", "😀".encode(), "😀".encode())]
+SMALL_SET = [0, 1, 2, 6, 31, 32, 33]
+
+
+def strlen_grid(extras):
+    """(p, q) = (filler bytes before the special, filler bytes after it)"""
+    g = set()
+    for p in LENS:
+        for q in (SMALL_SET if p <= 70 else [0, 1, 33]):
+            g.add((p, q))
+    for q in range(0, 71):
+        for p in SMALL_SET:
+            g.add((p, q))
+    if extras == "thorough":
+        for p in range(0, 71):
+            for q in range(0, 71):
+                g.add((p, q))
+        for p in LENS_POW:
+            for q in range(0, 71):
+                g.add((p, q))
+        for q in LENS_POW:
+            for p in SMALL_SET:
+                g.add((p, q))
+    return sorted(g)
+
+
+def wide_tree(kind, n):
+    names = [x for x in PLAIN_KNOWN if is_ident_tok(x) and upper(x) not in ("INT", "JSON", "OBJECT")]
+    small = [lambda k: ('N', names[k % len(names)]),
+             lambda k: ('N', names[(7 * k + 3) % len(names)]),
+             lambda k: ('A', "Array", [('t', ('A', "Nullable", [('t', ('N', names[k % len(names)]))]))]),
+             lambda k: ('A', "DateTime", [('s', b"UTC")]),
+             lambda k: ('A', "Decimal", [('u', 10), ('u', k % 10)]),
+             lambda k: ('A', "Enum8", [('e', b"v%d" % k, k % 2 == 1, k % 128)]),
+             lambda k: ('A', "Tuple", [('t', ('N', "UInt8")), ('t', ('N', "String"))])]
+    if kind == "tuple-plain":
+        return ('A', "Tuple", [('t', ('N', names[k % len(names)])) for k in range(n)])
+    if kind == "variant-plain":
+        return ('A', "Variant", [('t', ('N', names[(k * 5 + 1) % len(names)])) for k in range(n)])
+    if kind == "tuple-named":
+        return ('A', "Tuple", [('n', "c%d" % k, small[k % 3](k)) for k in range(n)])
+    if kind == "variant-mixed":
+        return ('A', "Variant", [('t', small[k % len(small)](k)) for k in range(n)])
+    if kind == "tuple-mixed-nested":
+        return ('A', "Map", [('t', ('N', "String")), ('t', ('A', "Array", [('t', ('A', "Tuple", [('t', small[(k + 2) % len(small)](k)) for k in range(n)]))]))])
+    if kind == "enum16":
+        return ('A', "Enum16", [('e', b"v%d" % k, False, k) for k in range(n)])
+    if kind == "enum-novalues":
+        return ('A', "Enum", [('s', b"label %d" % k) for k in range(n)])
+    if kind == "deep-array":
+        t = ('N', "UInt8")
+        for _ in range(n):
+            t = ('A', "Array", [('t', t)])
+        return t
+    if kind == "deep-mixed":
+        t = ('A', "DateTime64", [('u', 3), ('s', b"UTC")])
+        for k in range(n):
+            w = k % 5
+            if w == 0:
+                t = ('A', "Array", [('t', t)])
+            elif w == 1:
+                t = ('A', "Nullable", [('t', t)])
+            elif w == 2:
+                t = ('A', "Tuple", [('n', "a", t), ('n', "b", ('N', "String"))])
+            elif w == 3:
+                t = ('A', "Map", [('t', ('N', "String")), ('t', t)])
+            else:
+                t = ('A', "Variant", [('t', ('N', "UInt8")), ('t', t)])
+        return t
+    raise ValueError(kind)
+
+
+def extra_cases(seed, extras):
+    """[(tree, style, text, class)] — deterministic in (seed, extras)"""
+    out = []
+    if extras == "none":
+        return out
+    j = 0
+
+    def rng():
+        return case_rng(seed, (1 << 40) + len(out))
+
+    # bytes: every invalid-UTF-8 value in every string position
+    if "bytes" not in KNOWN_OPEN:
+        for v in STR_BYTES:
+            for h in range(NHOLDERS):
+                r = rng()
+                t = holders(h, lambda: ('s', v), lambda neg, n: ('e', v, neg, n))
+                style = SEP_STYLES[len(out) % len(SEP_STYLES)]
+                out.append((t, style, render(r, t, style), "bytes"))
+    # strlen: prefix / special / tail
+    if "strlen" not in KNOWN_OPEN:
+        grid = strlen_grid(extras)
+        for (name, src, val) in STRLEN_SPECIALS:
+            for (p, q) in grid:
+                r = rng()
+                off = (p * 7 + q) % len(FILL)
+                pre, post = fill(p, off), fill(q, (off + 11) % len(FILL))
+                if q and name in ("''", "\\'"):
+                    post = (b"s bank" + post)[:q]
+                value = pre + val + post
+                source = b"'" + pre + src + post + b"'"
+                t = holders(j, lambda: ('s', value, source), lambda neg, n: ('e', value, neg, n, source))
+                j += 1
+                style = ("tight", "canonical", "spaces")[j % 3]
+                out.append((t, style, render(r, t, style), "strlen"))
+        # plain strings of every length, ASCII and multi-byte filler (no special)
+        for n in LENS:
+            for unit in (None, "é".encode(), "日".encode(), "😀".encode()):
+                r = rng()
+                value = fill(n, n % 13) if unit is None else (unit * (n // len(unit) + 1))[:n - n % len(unit)] + fill(n % len(unit))
+                source = b"'" + value + b"'"
+                t = holders(j, lambda: ('s', value, source), lambda neg, n_: ('e', value, neg, n_, source))
+                j += 1
+                out.append((t, "canonical", render(r, t, "canonical"), "strlen"))
+    # wide and deep
+    if "wide" not in KNOWN_OPEN:
+        sizes = [1600] if extras == "quick" else [1600, 5000, 20000]
+        depths = [64, 300] if extras == "quick" else [64, 300, 1000]
+        for n in sizes:
+            for kind in ("tuple-plain", "variant-plain", "tuple-named", "variant-mixed", "tuple-mixed-nested", "enum16", "enum-novalues"):
+                r = rng()
+                t = wide_tree(kind, n)
+                style = SEP_STYLES[len(out) % len(SEP_STYLES)]
+                out.append((t, style, render(r, t, style), "wide"))
+        for n in depths:
+            for kind in ("deep-array", "deep-mixed"):
+                r = rng()
+                t = wide_tree(kind, n)
+                style = ("tight", "canonical", "newlines")[len(out) % 3]
+                out.append((t, style, render(r, t, style), "wide"))
+    return out
+
+
 def kind_of(t):
     if t[0] == 'N':
         return "Name"
@@ -586,15 +842,61 @@ def dec(h):
     if h in ("-", ""):
         return ""
     try:
-        return bytes.fromhex(h).decode("utf-8", "replace")
+        return bytes.fromhex(h).decode("latin-1")       # one character per byte: bytes that are not UTF-8 stay visible as \xNN in %r
     except ValueError:
         return h
+
+
+def short(a, b=None):
+    """%r of the decoded answer a; long answers are cut to the neighbourhood of the first difference from b"""
+    x = dec(a)
+    if len(x) <= 300:
+        return repr(x)
+    y = dec(b) if b is not None else ""
+    k = 0
+    while k < min(len(x), len(y)) and x[k] == y[k]:
+        k += 1
+    lo = max(0, k - 60)
+    return "(%d bytes, first difference at byte %d) ...%r..." % (len(x), k, x[lo:k + 60])
+
+
+def run_sharded(cmd, in_path, tmp, shards=8):
+    """one-line-in / one-line-out filter over consecutive pieces of the input in parallel; returns the concatenated output"""
+    lines = open(in_path).read().splitlines(True)
+    if len(lines) < 4 * shards:
+        return subprocess.run(cmd, stdin=open(in_path), capture_output=True, text=True, check=True).stdout
+    # pieces of about equal BYTE size (a few cases are very long)
+    total = sum(len(l) for l in lines)
+    pieces, cur, acc = [], [], 0
+    for l in lines:
+        cur.append(l)
+        acc += len(l)
+        if acc >= total / shards and len(pieces) < shards - 1:
+            pieces.append(cur)
+            cur, acc = [], 0
+    pieces.append(cur)
+    procs = []
+    for k, part in enumerate(pieces):
+        pi = "%s.part%d" % (in_path, k)
+        with open(pi, "w") as f:
+            f.writelines(part)
+        procs.append((subprocess.Popen("ulimit -s unlimited 2>/dev/null; exec " + " ".join(cmd) + " < " + pi + " > " + pi + ".out",
+                                       shell=True, executable="/bin/bash"), pi))
+    out = []
+    for pr, pi in procs:
+        pr.wait()
+        if pr.returncode != 0:
+            raise RuntimeError("%s failed on %s (rc %s)" % (cmd, pi, pr.returncode))
+        out.append(open(pi + ".out").read())
+        os.remove(pi)
+        os.remove(pi + ".out")
+    return "".join(out)
 
 
 def main(argv):
     args = [a for a in argv[1:]]
     opts = {"--typedump": "/verif/build/typedump", "--driver": "/verif/build/types_driver", "--keep": None,
-            "--max-report": "5", "--deviations": "25", "--mutants": "15"}
+            "--max-report": "5", "--deviations": "25", "--mutants": "15", "--extras": "quick", "--script-dump": None}
     run = False
     pos = []
     j = 0
@@ -617,16 +919,29 @@ def main(argv):
     mut_pct = int(opts["--mutants"])
     maxrep = int(opts["--max-report"])
 
+    sys.setrecursionlimit(100000)
     cases = []
+    classes = []
     pair_count = {}
     depth_hist = {}
     style_hist = {}
     argkinds = {}
-    for i in range(count):
-        t, style, text, _ = make_case(seed, i, dev_pct, mut_pct)
+    extras = extra_cases(seed, opts["--extras"])
+    class_hist = {}
+    for i in range(count + len(extras)):
+        if i < count:
+            t, style, text, _ = make_case(seed, i, dev_pct, mut_pct)
+            cls = "base"
+        else:
+            t, style, text, cls = extras[i - count]
         cases.append((t, style, text))
+        classes.append(cls)
+        class_hist[cls] = class_hist.get(cls, 0) + 1
         style_hist[style] = style_hist.get(style, 0) + 1
         if t is None:
+            continue
+        if cls == "wide":
+            count_args(t, argkinds)
             continue
         ps = []
         real_pairs(t, ps)
@@ -644,12 +959,19 @@ def main(argv):
                dict(sorted(depth_hist.items())), style_hist, dict(sorted(argkinds.items()))))
     if missing:
         cov += "; MISSING pairs: %s" % missing[:10]
+    lens_seen = sorted(set(strlens(cases, classes)))
+    cov2 = ("extra classes %s: bytes = %d values that are not valid UTF-8 x %d string positions; strlen = %d specials x (prefix, tail) grid "
+            "of %d points + plain strings, string value lengths covered %s; wide = argument counts up to %d, depth up to %d; KNOWN_OPEN %s" % (
+                {k: v for k, v in sorted(class_hist.items()) if k != "base"}, len(STR_BYTES), NHOLDERS, len(STRLEN_SPECIALS),
+                len(strlen_grid(opts["--extras"])) if opts["--extras"] != "none" else 0, ranges(lens_seen),
+                max([len(t[2]) for (t, _, _), c in zip(cases, classes) if c == "wide"] or [0]),
+                max([depth_of(t) for (t, _, _), c in zip(cases, classes) if c == "wide"] or [0]), sorted(KNOWN_OPEN) or "none"))
 
     if not run:
         out = sys.stdout
         for t, style, text in cases:
             out.write("%s\t%s\t%s\n" % (hx(text), tree_str(t) if t is not None else "-", style))
-        sys.stderr.write(cov + "\n")
+        sys.stderr.write(cov + "\n" + cov2 + "\n")
         return 0
 
     keep = opts["--keep"]
@@ -659,7 +981,7 @@ def main(argv):
     with open(fin, "w") as f:
         for t, style, text in cases:
             f.write(hx(text) + "\n")
-    hout = subprocess.run([opts["--typedump"]], stdin=open(fin), capture_output=True, text=True, check=True).stdout
+    hout = run_sharded([opts["--typedump"]], fin, tmp)
     hl = hout.splitlines()
     if len(hl) != len(cases):
         print("FAIL harness produced %d lines for %d cases" % (len(hl), len(cases)))
@@ -669,7 +991,7 @@ def main(argv):
         for line, (t, style, text) in zip(hl, cases):
             h, a, b, toks = line.split("\t")
             f.write("%s\t%s\t%s\n" % (h, toks, tree_str(t) if t is not None else "-"))
-    dout = subprocess.run([opts["--driver"]], stdin=open(din), capture_output=True, text=True, check=True).stdout
+    dout = run_sharded([opts["--driver"]], din, tmp)
     dl = dout.splitlines()
     if len(dl) != len(cases):
         print("FAIL driver produced %d lines for %d cases" % (len(dl), len(cases)))
@@ -678,7 +1000,24 @@ def main(argv):
         open(os.path.join(tmp, "harness.out"), "w").write(hout)
         open(os.path.join(tmp, "driver.out"), "w").write(dout)
 
+    # (5) script pass: every case that parses alone in both positions, all in ONE parser.Parse call
+    NOTEXT = ("ERR", "PANIC", "SHAPE", "BADHEX")
+    script_idx = [i for i, l in enumerate(hl) if l.split("\t")[1] not in NOTEXT and l.split("\t")[2] not in NOTEXT]
+    sin = os.path.join(tmp, "script.in")
+    with open(sin, "w") as f:
+        for i in script_idx:
+            f.write(hx(cases[i][2]) + "\n")
+    sp = subprocess.run([opts["--typedump"], "-script"], stdin=open(sin), capture_output=True, text=True)
+    sl = sp.stdout.splitlines()
+    if keep:
+        open(os.path.join(tmp, "script.out"), "w").write(sp.stdout)
+    if sp.returncode != 0 or len(sl) != len(script_idx):
+        print("FAIL typedump -script: rc %d, %d lines for %d cases %s" % (sp.returncode, len(sl), len(script_idx), sp.stderr[-300:]))
+        return 1
+
     n_tok_bad = n_model_bad = n_pos_bad = n_thm_bad = n_cls_bad = 0
+    n_script_bad = n_script_skip = 0
+    first_script_bad = None
     n_oof = n_wf = n_thm = n_mut = n_mut_oof = n_resid = 0
     mut_same = {}
     resid_answers = {}
@@ -687,7 +1026,10 @@ def main(argv):
     reports = []
 
     def report(kind, i, msg):
-        reports.append((kind, len(cases[i][2]), "%s case=%d seed=%d text=%r %s" % (kind, i, seed, cases[i][2], msg)))
+        txt = cases[i][2]
+        shown_txt = repr(txt) if len(txt) <= 400 else repr(txt[:200]) + "...(%d bytes)..." % len(txt) + repr(txt[-120:])
+        reports.append((kind, len(txt), "%s case=%d seed=%d text=%s class=%s hex=%s %s" % (
+            kind, i, seed, shown_txt, classes[i], hx(txt) if len(txt) <= 20000 else "-", msg[:1500])))
 
     for i, (hline, dline, (t, style, text)) in enumerate(zip(hl, dl, cases)):
         h, ca, cb, _ = hline.split("\t")
@@ -701,7 +1043,7 @@ def main(argv):
                     oof_reasons[m] = oof_reasons.get(m, 0) + 1
                 elif m != c:
                     n_model_bad += 1
-                    report("MODEL", i, "%s code=%r model=%r" % (posn, dec(c), dec(m)))
+                    report("MODEL", i, "%s code=%s model=%s" % (posn, short(c, m), short(m, c)))
                 else:
                     mut_same[("ERR" if m == "ERR" else "text")] = mut_same.get(("ERR" if m == "ERR" else "text"), 0) + 1
             continue
@@ -721,10 +1063,10 @@ def main(argv):
                     report("MODEL-OOF", i, "%s well-formed tree but model says %s" % (posn, m))
             elif m != c:
                 n_model_bad += 1
-                report("MODEL", i, "%s code=%r model=%r" % (posn, dec(c), dec(m)))
+                report("MODEL", i, "%s code=%s model=%s" % (posn, short(c, m), short(m, c)))
         if ca != cb:
             n_pos_bad += 1
-            report("POSITIONS", i, "CAST=%r ::=%r" % (dec(ca), dec(cb)))
+            report("POSITIONS", i, "CAST=%s ::=%s" % (short(ca, cb), short(cb, ca)))
         devs = set()
         deviations(t, devs)
         if "R" in devs:
@@ -740,23 +1082,54 @@ def main(argv):
             differs = not (ca == shown and cb == shown)
             if differs:
                 n_thm_bad += 1
-                report("SPEC", i, "type %s: expected %r, CAST form %r, :: form %r" % (
-                    canon_py(t), dec(shown), dec(ca), dec(cb)))
+                report("SPEC", i, "expected %s, CAST form %s, :: form %s, type %s" % (
+                    short(shown, ca if ca != shown else cb), short(ca, shown), short(cb, shown), canon_py(t)[:300]))
             if devs:
                 key = "+".join(sorted(devs))
                 e = fclass.setdefault(key, [0, 0])
                 e[0] += 1
                 e[1] += differs
 
+    for k, (i, sline) in enumerate(zip(script_idx, sl)):
+        if sline == hl[i]:
+            continue
+        sh_, sa, sb, _ = sline.split("\t")
+        h, ca, cb, _ = hl[i].split("\t")
+        if sa == "SKIP" and sb == "SKIP":
+            n_script_skip += 1
+            continue
+        n_script_bad += 1
+        if first_script_bad is None:
+            first_script_bad = k
+        for (posn, one, scr, stno) in (("CAST", ca, sa, 2 * k), ("::", cb, sb, 2 * k + 1)):
+            if one != scr and scr != "SKIP":
+                report("SCRIPT", i, "position=%s script-statement=%d of %d (type number %d in the script): alone %s, inside the script %s%s" % (
+                    posn, stno, 2 * len(script_idx), k, short(one, scr), short(scr, one),
+                    "" if cases[i][0] is None else " type " + canon_py(cases[i][0])[:300]))
+                break
+    if first_script_bad is not None and opts["--script-dump"]:
+        with open(opts["--script-dump"], "w") as f:
+            for i in script_idx[:first_script_bad + 1]:
+                f.write(hx(cases[i][2]) + "\n")
+
     print(cov)
+    print(cov2)
+    print("script pass: %d cases = %d statements in ONE parser.Parse call (script of %d bytes): %d cases differ from their per-case result, %d skipped after the restart limit" % (
+        len(script_idx), 2 * len(script_idx), sum(len(cases[i][2]) * 2 + 30 for i in script_idx), n_script_bad, n_script_skip))
     print("tree cases %d: wf %d (theorem instances checked against the code: %d), residual combination R (not wf) %d %s" % (
         len(cases) - n_mut, n_wf, n_thm, n_resid, resid_answers))
     print("mutants (text only) %d: model = code on %s answers, model OOF on %d answers" % (n_mut, mut_same, n_mut_oof))
     print("model OOF answers on trees %d; all OOF reasons %s" % (n_oof, oof_reasons))
     print("former deviation classes on wf trees (cases, of which code != spec): %s" % dict(sorted(fclass.items())))
-    bad = n_tok_bad + n_model_bad + n_pos_bad + n_thm_bad + n_cls_bad
-    print("disagreements: tokens %d, model-vs-code %d, CAST-vs-:: %d, spec-vs-code on wf trees %d, classifier %d" % (
-        n_tok_bad, n_model_bad, n_pos_bad, n_thm_bad, n_cls_bad))
+    bad = n_tok_bad + n_model_bad + n_pos_bad + n_thm_bad + n_cls_bad + n_script_bad
+    print("disagreements: tokens %d, model-vs-code %d, CAST-vs-:: %d, spec-vs-code on wf trees %d, classifier %d, script-vs-single %d" % (
+        n_tok_bad, n_model_bad, n_pos_bad, n_thm_bad, n_cls_bad, n_script_bad))
+    bad_by_class = {}
+    for kind, _, m in reports:
+        c = m.split(" class=")[1].split(" ")[0] if " class=" in m else "?"
+        bad_by_class[(kind, c)] = bad_by_class.get((kind, c), 0) + 1
+    if bad_by_class:
+        print("reports by (kind, case class): %s" % dict(sorted(bad_by_class.items())))
     shown_kinds = {}
     for kind, _, m in sorted(reports, key=lambda x: (x[0], x[1])):
         shown_kinds[kind] = shown_kinds.get(kind, 0) + 1
@@ -771,6 +1144,35 @@ def main(argv):
             os.remove(os.path.join(tmp, fn))
         os.rmdir(tmp)
     return 1 if bad else 0
+
+
+def ranges(xs):
+    """[0,1,2,5,6] -> '0-2,5-6'"""
+    out, j = [], 0
+    while j < len(xs):
+        k = j
+        while k + 1 < len(xs) and xs[k + 1] == xs[k] + 1:
+            k += 1
+        out.append(str(xs[j]) if k == j else "%d-%d" % (xs[j], xs[k]))
+        j = k + 1
+    return ",".join(out)
+
+
+def strlens(cases, classes):
+    """byte lengths of the string values of the bytes / strlen cases"""
+    def walk(t):
+        if t[0] == 'N':
+            return
+        for a in t[2]:
+            if a[0] in ('s', 'e') and ((a[0] == 's' and len(a) > 2) or (a[0] == 'e' and len(a) > 4)):
+                yield len(a[1])
+            elif a[0] == 't':
+                yield from walk(a[1])
+            elif a[0] == 'n':
+                yield from walk(a[2])
+    for (t, _, _), c in zip(cases, classes):
+        if c == "strlen":
+            yield from walk(t)
 
 
 def count_args(t, out):
@@ -792,6 +1194,12 @@ def count_args(t, out):
                 out["str-backslash"] = out.get("str-backslash", 0) + 1
             if any(c >= 0x80 for c in b):
                 out["str-utf8"] = out.get("str-utf8", 0) + 1
+                try:
+                    b.decode("utf-8")
+                except UnicodeDecodeError:
+                    out["str-invalid-utf8"] = out.get("str-invalid-utf8", 0) + 1
+            if len(b) >= 32:
+                out["str-len>=32"] = out.get("str-len>=32", 0) + 1
             if any(c < 0x20 for c in b):
                 out["str-control"] = out.get("str-control", 0) + 1
         if a[0] == 't':
